@@ -20,8 +20,22 @@
 // nil, a pass resuming above an index or fetching nothing although the source is ahead, the controller
 // going on after a pass that nothing disturbed, a fatal reply while the caller's context is live; each of
 // them is checked against the destination as it was at that moment (pass-start snapshots), whatever the
-// world injected before.  Two input streams: genCase (everything mixed) and genPerBatch (context live,
-// a fate per batch position, page caps of batch-1).
+// world injected before.  Three input streams: genCase (everything mixed), genPerBatch (context live,
+// a fate per batch position, page caps of batch-1) and genRange (the configured range [start, end) against
+// the source's tree head: end below / at / above the STH size, above what the source holds; sources that
+// serve nothing beyond their STH, whose STH lags behind what get-entries serves, or that grow right after
+// signing the head).
+//
+// A run that does not come back is an observation, not a harness failure.  Three watchdogs, from the most
+// to the least informative: (1) the simulated world counts the calls it receives; an unbounded number of
+// them at ONE instant of virtual time (a retry loop without a pause), or more than any scripted history
+// can cause in total, makes it declare the run hung, cancel the caller's context and answer nothing any
+// more (callers that ignore even that are parked for good); (2) the virtual-time horizon / synctest's
+// deadlock detection (every goroutine of the bubble durably blocked); (3) a wall-clock timer outside the
+// bubble for a spin that never calls the world.  (1) and (2) give the case the outcome OFHang with the
+// concrete history; (3) records the case as failing, writes what was gathered and ends the process.
+// Panics of the harness's own code (generators, the simulated world on the controller's goroutines, the
+// oracle) are recorded as failing cases as well (the go-test counterpart of lib.Writer.Guard).
 
 //go:debug randseednop=0
 package main
@@ -41,6 +55,7 @@ import (
 	"net/http/httptest"
 	"os"
 	"path/filepath"
+	"runtime/debug"
 	"sort"
 	"strconv"
 	"strings"
@@ -249,7 +264,142 @@ func buildPool(r *mrand.Rand) []*poolEntry {
 	copy(ikh[:], rnd(32))
 	add("malformed:precert-extra", leafPrecert(ts, ikh, []byte{5, 5}, nil), chain([]byte{1}), false, nil) // a bare chain is not a PrecertChainEntry... (it is: precert=01, then nothing) -> truncated
 	add("malformed:short", []byte{0, 0, 1}, chain(), false, nil)
+
+	// ---- certificates that do not parse at EVERY position of an entry, not only in the leaf.
+	// An entry carries several certificates: the leaf (or the TBS of a precertificate) in leaf_input, the
+	// submitted precertificate and the issuers in extra_data.  The log stored all of them as submitted and
+	// "entries whose certificates do not parse are still copied verbatim" speaks about each: a leaf that
+	// parses says nothing about its chain.  Defects: junk, a real certificate truncated / with trailing
+	// bytes / with a wrong outer tag / with a wrong outer length, well-formed DER that is no certificate.
+	defects := []struct {
+		name string
+		mk   func(c []byte) []byte
+	}{
+		{"junk", func(c []byte) []byte { return rnd(1 + r.Intn(24)) }},
+		{"truncated-half", func(c []byte) []byte { return append([]byte{}, c[:len(c)/2]...) }},
+		{"truncated-1", func(c []byte) []byte { return append([]byte{}, c[:len(c)-1]...) }},
+		{"trailing-byte", func(c []byte) []byte { return append(append([]byte{}, c...), 0) }},
+		{"trailing-bytes", func(c []byte) []byte { return append(append([]byte{}, c...), rnd(2+r.Intn(3))...) }},
+		{"one-byte", func(c []byte) []byte { return []byte{0x30} }},
+		{"wrong-tag", func(c []byte) []byte { d := append([]byte{}, c...); d[0] = 0x31; return d }},
+		{"wrong-length", func(c []byte) []byte { d := append([]byte{}, c...); d[3] ^= 0x01; return d }},
+		{"der-not-a-cert", func(c []byte) []byte { return []byte{0x30, 0x03, 0x02, 0x01, 0x05} }},
+	}
+	dk := 0
+	// generator sanity (labels only, not an oracle): what is called a defect here is a fatal parse error
+	for i := range defects {
+		name, mk := defects[i].name, defects[i].mk
+		defects[i].mk = func(c []byte) []byte {
+			d := mk(c)
+			if bytes.Equal(c, tbs(leaf0)) {
+				if _, err := x509.ParseTBSCertificate(d); !x509.IsFatal(err) {
+					panic("c20 pool: TBS defect " + name + " parses")
+				}
+			} else if _, err := x509.ParseCertificate(d); !x509.IsFatal(err) {
+				panic("c20 pool: certificate defect " + name + " parses")
+			}
+			return d
+		}
+	}
+	nextDefect := func(c []byte) (string, []byte) {
+		d := defects[dk%len(defects)]
+		dk++
+		return d.name, d.mk(c)
+	}
+	leaves := [][]byte{leaf0, leaf1}
+	// X.509 entries: the leaf parses, one chain position does not (chains of 1, 2 and 3, every position)
+	for _, d := range defects { // every defect as the only issuer
+		lf := leaves[dk%2]
+		dk++
+		add("x509:chain-unparsable:1of1:"+d.name, leafX509(0, 0, ts, 0, lf, nil), chain(d.mk(inter)), true, lf)
+	}
+	for pos := 0; pos < 2; pos++ {
+		cs := [][]byte{inter, root}
+		dn, dc := nextDefect(cs[pos])
+		cs[pos] = dc
+		add(fmt.Sprintf("x509:chain-unparsable:%dof2:%s", pos+1, dn), leafX509(0, 0, ts, 0, leaf0, nil), chain(cs...), true, leaf0)
+	}
+	for pos := 0; pos < 3; pos++ {
+		cs := [][]byte{inter, inter, root}
+		dn, dc := nextDefect(cs[pos])
+		cs[pos] = dc
+		add(fmt.Sprintf("x509:chain-unparsable:%dof3:%s", pos+1, dn), leafX509(0, 0, ts, 0, leaf1, rnd(r.Intn(3))), chain(cs...), true, leaf1)
+	}
+	add("x509:chain-unparsable:all", leafX509(0, 0, ts, 0, leaf0, nil), chain(rnd(1+r.Intn(9)), inter[:7], rnd(1+r.Intn(9))), true, leaf0)
+	add("x509:empty-chain", leafX509(0, 0, ts, 0, leaf0, nil), chain(), true, leaf0)
+	// the other way round: a leaf that does not parse in front of a chain that does
+	for i := 0; i < 3; i++ {
+		dn, dc := nextDefect(leaf0)
+		add("x509:unparsable:real-chain:"+dn, leafX509(0, 0, ts, 0, dc, nil), chain(inter, root), true, dc)
+	}
+	// precertificate entries: TBS and submitted precertificate parse, an issuer does not
+	for _, d := range defects[:5] {
+		copy(ikh[:], rnd(32))
+		add("precert:chain-unparsable:1of1:"+d.name, leafPrecert(ts, ikh, tbs(leaf0), nil), precertChain(leaf0, d.mk(inter)), true, leaf0)
+	}
+	for pos := 0; pos < 2; pos++ {
+		cs := [][]byte{inter, root}
+		dn, dc := nextDefect(cs[pos])
+		cs[pos] = dc
+		copy(ikh[:], rnd(32))
+		add(fmt.Sprintf("precert:chain-unparsable:%dof2:%s", pos+1, dn), leafPrecert(ts, ikh, tbs(leaf1), nil), precertChain(leaf1, cs...), true, leaf1)
+	}
+	for pos := 0; pos < 3; pos++ {
+		cs := [][]byte{inter, inter, root}
+		dn, dc := nextDefect(cs[pos])
+		cs[pos] = dc
+		copy(ikh[:], rnd(32))
+		add(fmt.Sprintf("precert:chain-unparsable:%dof3:%s", pos+1, dn), leafPrecert(ts, ikh, tbs(leaf0), nil), precertChain(leaf0, cs...), true, leaf0)
+	}
+	copy(ikh[:], rnd(32))
+	add("precert:empty-chain", leafPrecert(ts, ikh, tbs(leaf0), nil), precertChain(leaf0), true, leaf0)
+	// ... the submitted precertificate does not (TBS and issuers do), the TBS does not (the rest does)
+	for i := 0; i < 3; i++ {
+		dn, dc := nextDefect(leaf1)
+		copy(ikh[:], rnd(32))
+		add("precert:submitted-unparsable:"+dn, leafPrecert(ts, ikh, tbs(leaf1), nil), precertChain(dc, inter, root), true, dc)
+	}
+	for i := 0; i < 3; i++ {
+		dn, dc := nextDefect(tbs(leaf0))
+		copy(ikh[:], rnd(32))
+		add("precert:tbs-unparsable:"+dn, leafPrecert(ts, ikh, dc, nil), precertChain(leaf0, inter), true, leaf0)
+	}
 	return pool
+}
+
+// coqBytes renders a byte string as a Coq term in which the few big certificates of the pool appear by
+// name (the header of every shard carries the pool; Coq's cost is parsing hex literals).
+type blobT struct {
+	name string
+	b    []byte
+}
+
+func coqBytes(blobs []blobT, b []byte) string {
+	var parts []string
+	for len(b) > 0 {
+		bi, bp := -1, len(b)
+		for i, bl := range blobs {
+			if p := bytes.Index(b, bl.b); p >= 0 && (p < bp || (p == bp && len(bl.b) > len(blobs[bi].b))) {
+				bi, bp = i, p
+			}
+		}
+		if bi < 0 {
+			parts = append(parts, lib.Hex(b))
+			break
+		}
+		if bp > 0 {
+			parts = append(parts, lib.Hex(b[:bp]))
+		}
+		parts = append(parts, blobs[bi].name)
+		b = b[bp+len(blobs[bi].b):]
+	}
+	if len(parts) == 0 {
+		return "[]"
+	}
+	if len(parts) == 1 {
+		return parts[0]
+	}
+	return "(" + strings.Join(parts, " ++ ") + ")"
 }
 
 // ------------------------------------------------------------------ scripts
@@ -262,6 +412,7 @@ type dreply struct {
 
 type passScript struct {
 	grow      []*poolEntry
+	lateGrow  []*poolEntry // entries the log accepts right after it has served get-sth (the model sees grow ++ lateGrow)
 	integrate int64
 	root      string // ok | err | nil | garbled | cancel | lose
 	sth       string // ok | err | fork
@@ -293,6 +444,7 @@ type caseSpec struct {
 	scripts    []*passScript
 	seed       int64
 	genTags    []string // generator classes (input-distribution statistics)
+	genInfo    map[string]interface{} // generator parameters worth showing in a replay file
 }
 
 // ------------------------------------------------------------------ the simulated world
@@ -329,6 +481,9 @@ type obsPass struct {
 	stored0   map[int64]bool // the indices the destination held when the pass began
 	acted     bool           // a scripted cancellation / loss of mastership fired during the pass
 	fatalLive []string       // fatal destination replies delivered while the caller's context was live
+	srcLenSth int64          // what the source held when it served get-sth (-1: not served)
+	beyondSth [][3]int64     // get-entries (start, end, served) answered with entries at or past the STH size of the pass
+	refused   [][3]int64     // get-entries (start, end, times) refused because the source holds nothing there
 }
 
 type sim struct {
@@ -348,6 +503,88 @@ type sim struct {
 	beyond     []string       // direct-oracle notes collected while running
 	seq        int
 	dead       bool // the simulated world has cancelled the caller's context
+	// where and under which tree head every index stored during the run was stored
+	addedPass  map[int64]int
+	addedUnder map[int64]int64
+	lateDue    []*poolEntry // growth scripted for "right after get-sth" that has not happened yet
+	// watchdog (1): calls into the world, in all and at the current instant of virtual time
+	events, instEvents, afterHung int
+	lastInst   time.Time
+	t0         time.Time
+	hung       string // why the world declared the run hung
+	lastCall   string
+	worldPanic string // a panic of the simulated world itself (harness fault)
+}
+
+const (
+	instBudget  = 3000  // calls into the world at one instant of virtual time (a scripted history causes a few hundred at most)
+	totalBudget = 40000 // calls into the world in one case
+	parkAfter   = 2000  // calls after the cancellation before the callers are parked for good
+)
+
+// enter locks the world and counts the call.  false: the run has been declared hung and the world answers
+// nothing any more (the caller gets an error; one that keeps calling regardless is parked durably, so that
+// the virtual-time horizon ends the case).
+func (s *sim) enter(what string) bool {
+	s.mu.Lock()
+	now := time.Now()
+	if !now.Equal(s.lastInst) {
+		s.lastInst, s.instEvents = now, 0
+	}
+	s.events++
+	s.instEvents++
+	if s.hung == "" {
+		switch {
+		case s.instEvents > instBudget:
+			s.hung = fmt.Sprintf("%d calls into the source / destination at one instant of virtual time (%s after the start of the run), the last ones: %s, %s",
+				s.instEvents-1, now.Sub(s.t0), s.lastCall, what)
+		case s.events > totalBudget:
+			s.hung = fmt.Sprintf("%d calls into the source / destination, more than any scripted history causes (virtual time %s), the last ones: %s, %s",
+				s.events-1, now.Sub(s.t0), s.lastCall, what)
+		}
+		if s.hung != "" {
+			// the world's own cancellation: what it cuts short (a back-off in progress) is not the run's doing
+			s.dead = true
+			if n := len(s.passes); n > 0 {
+				s.passes[n-1].acted, s.passes[n-1].abortFault = true, true
+			}
+			s.cancel()
+		}
+	} else {
+		s.afterHung++
+	}
+	s.lastCall = what
+	if s.hung != "" {
+		park := s.afterHung > parkAfter
+		s.mu.Unlock()
+		if park {
+			select {}
+		}
+		return false
+	}
+	return true
+}
+
+// leave is deferred by every entry point of the world after a successful enter: a panic of the simulated
+// world (on a goroutine of the code under test, where nobody would recover it) ends the case, not the process.
+func (s *sim) leave() {
+	if r := recover(); r != nil {
+		if s.worldPanic == "" {
+			st := string(debug.Stack())
+			if len(st) > 2500 {
+				st = st[:2500]
+			}
+			s.worldPanic = fmt.Sprint(r) + "\n" + st
+		}
+		s.dead = true
+		s.cancel()
+	}
+	s.mu.Unlock()
+}
+
+func (s *sim) flushLate() {
+	s.src = append(s.src, s.lateDue...)
+	s.lateDue = nil
 }
 
 func (s *sim) cur() *obsPass {
@@ -360,7 +597,7 @@ func (s *sim) cur() *obsPass {
 }
 
 func newPass() *obsPass {
-	return &obsPass{sthSize: -1, attempts: map[int64]int{}, lastTime: map[int64]time.Time{}, srcErrs: map[int64]int64{}}
+	return &obsPass{sthSize: -1, srcLenSth: -1, attempts: map[int64]int{}, lastTime: map[int64]time.Time{}, srcErrs: map[int64]int64{}}
 }
 
 func (s *sim) script() *passScript {
@@ -404,8 +641,10 @@ func (s *sim) integrate(k int64) {
 
 // GetLatestSignedLogRoot marks the start of a pass.
 func (s *sim) GetLatestSignedLogRoot(ctx context.Context, _ *trillian.GetLatestSignedLogRootRequest, _ ...grpc.CallOption) (*trillian.GetLatestSignedLogRootResponse, error) {
-	s.mu.Lock()
-	defer s.mu.Unlock()
+	if !s.enter("GetLatestSignedLogRoot") {
+		return nil, context.Canceled
+	}
+	defer s.leave()
 	s.pass++
 	p := newPass()
 	s.passes = append(s.passes, p)
@@ -420,7 +659,9 @@ func (s *sim) GetLatestSignedLogRoot(ctx context.Context, _ *trillian.GetLatestS
 		s.cancel()
 		return nil, context.Canceled
 	}
+	s.flushLate()
 	s.src = append(s.src, ps.grow...)
+	s.lateDue = ps.lateGrow
 	s.integrate(ps.integrate)
 	p.ts = s.size
 	switch ps.root {
@@ -463,14 +704,16 @@ func sameLeaf(a, b *trillian.LogLeaf) bool {
 }
 
 func (s *sim) AddSequencedLeaves(ctx context.Context, req *trillian.AddSequencedLeavesRequest, _ ...grpc.CallOption) (*trillian.AddSequencedLeavesResponse, error) {
-	s.mu.Lock()
-	defer s.mu.Unlock()
-	now := time.Now()
-	p := s.cur()
 	start := int64(-1)
-	if len(req.Leaves) > 0 && req.Leaves[0] != nil {
+	if req != nil && len(req.Leaves) > 0 && req.Leaves[0] != nil {
 		start = req.Leaves[0].LeafIndex
 	}
+	if !s.enter(fmt.Sprintf("AddSequencedLeaves start=%d", start)) {
+		return nil, context.Canceled
+	}
+	defer s.leave()
+	now := time.Now()
+	p := s.cur()
 	att := p.attempts[start]
 	p.attempts[start]++
 	rec := &obsReq{start: start, att: att, delay: -1, sthSize: p.sthSize, seq: s.seq}
@@ -543,6 +786,7 @@ func (s *sim) AddSequencedLeaves(ctx context.Context, req *trillian.AddSequenced
 		if old := s.dest[l.LeafIndex]; old == nil {
 			s.dest[l.LeafIndex] = l
 			s.added[l.LeafIndex] = true
+			s.addedPass[l.LeafIndex], s.addedUnder[l.LeafIndex] = len(s.passes)-1, p.sthSize
 			sts, stj = append(sts, "LOk"), append(stj, "OK")
 		} else if sameLeaf(old, l) {
 			c = codes.AlreadyExists
@@ -584,8 +828,11 @@ func (s *sim) history(ps *passScript) []*poolEntry {
 }
 
 func (s *sim) ServeHTTP(w http.ResponseWriter, r *http.Request) {
-	s.mu.Lock()
-	defer s.mu.Unlock()
+	if !s.enter(strings.TrimPrefix(r.URL.Path, "/log/ct/v1/") + "?" + r.URL.RawQuery) {
+		http.Error(w, "the run has been declared hung", 503)
+		return
+	}
+	defer s.leave()
 	p := s.cur()
 	ps := s.script()
 	if ps == nil {
@@ -606,8 +853,10 @@ func (s *sim) ServeHTTP(w http.ResponseWriter, r *http.Request) {
 		}
 		ps.effSthSize = n
 		p.sthSize = n
+		p.srcLenSth = int64(len(s.src))
 		json.NewEncoder(w).Encode(map[string]interface{}{"tree_size": n, "timestamp": 1000 + s.pass,
 			"sha256_root_hash": mth(s.inputs(s.history(ps))[:n]), "tree_head_signature": []byte{4, 3, 0, 0}})
+		s.flushLate() // the log goes on accepting entries once the head is signed
 	case strings.HasSuffix(r.URL.Path, "/ct/v1/get-sth-consistency"):
 		first, _ := strconv.ParseInt(q.Get("first"), 10, 64)
 		second, _ := strconv.ParseInt(q.Get("second"), 10, 64)
@@ -690,8 +939,16 @@ func (s *sim) ServeHTTP(w http.ResponseWriter, r *http.Request) {
 			k = rem
 		}
 		if start < 0 || k <= 0 {
+			if n := len(p.refused); n > 0 && p.refused[n-1][0] == start && p.refused[n-1][1] == end {
+				p.refused[n-1][2]++
+			} else if n < 64 {
+				p.refused = append(p.refused, [3]int64{start, end, 1})
+			}
 			http.Error(w, "out of range", 400)
 			return
+		}
+		if p.sthSize >= 0 && start+k > p.sthSize && len(p.beyondSth) < 64 {
+			p.beyondSth = append(p.beyondSth, [3]int64{start, end, k})
 		}
 		type le struct {
 			LeafInput []byte `json:"leaf_input"`
@@ -736,6 +993,7 @@ func (f electionFactory) NewElection(ctx context.Context, id string) (election2.
 type outcome struct {
 	final string // OFNil | OFErr | OFPanic | OFHang
 	errS  string
+	abort string // a fault of the harness itself while the case ran (recorded as a failing case)
 }
 
 func idHashRef(idf configpb.IdentityFunction, index int64, e *poolEntry) []byte {
@@ -751,17 +1009,24 @@ func idHashRef(idf configpb.IdentityFunction, index int64, e *poolEntry) []byte 
 }
 
 func runCase(t *testing.T, spec *caseSpec) (*sim, outcome) {
-	s := &sim{spec: spec, dest: map[int64]*trillian.LogLeaf{}, size: spec.size0, pass: -1, added: map[int64]bool{}}
+	s := &sim{spec: spec, dest: map[int64]*trillian.LogLeaf{}, size: spec.size0, pass: -1, added: map[int64]bool{},
+		addedPass: map[int64]int{}, addedUnder: map[int64]int64{}}
 	s.src = append(s.src, spec.src0...)
 	for _, l := range spec.dest0 {
 		s.dest[l.LeafIndex] = cloneLeaf(l)
 	}
 	var out outcome
 	run := func(t *testing.T) {
+		defer func() { // a panic on the bubble's main goroutine would end the process
+			if r := recover(); r != nil {
+				out = outcome{final: "OFPanic", abort: fmt.Sprintf("setting up / waiting for the run panicked: %v", r)}
+			}
+		}()
 		mrand.Seed(spec.seed) // back-off jitter and StartDelay draw from the global source
 		ctx, cancel := context.WithCancel(context.Background())
 		s.cancel = cancel
 		s.loseMaster = cancel
+		s.t0 = time.Now()
 		hc := &http.Client{Transport: roundTripper{s}}
 		ctc, err := client.New("http://source.test/log", hc, jsonclient.Options{})
 		if err != nil {
@@ -811,22 +1076,41 @@ func runCase(t *testing.T, spec *caseSpec) (*sim, outcome) {
 		}()
 		select {
 		case out = <-done:
-		case <-time.After(2000 * time.Hour):
-			out = outcome{final: "OFHang"}
+		case <-time.After(horizon):
+			// watchdog (2): nothing is runnable in the bubble until the horizon (or only pauses without end)
+			out = outcome{final: "OFHang", errS: fmt.Sprintf("no result after %s of virtual time", horizon)}
 		}
 		cancel()
 		time.Sleep(3 * time.Hour) // outlive leaked timers (time.After in backoff.Retry) and goroutines
 	}
 	func() {
 		defer func() {
-			if r := recover(); r != nil { // synctest reports goroutines that never finish as a panic
-				out = outcome{final: "OFHang", errS: fmt.Sprint(r)}
+			if r := recover(); r != nil {
+				// synctest reports goroutines that never finish ("deadlock: ...") as a panic of synctest.Test
+				if msg := fmt.Sprint(r); strings.HasPrefix(msg, "deadlock:") {
+					if out.final != "OFHang" {
+						out = outcome{final: "OFHang", errS: msg + " (" + out.final + " " + out.errS + ")", abort: out.abort}
+					} else {
+						out.errS += "; " + msg
+					}
+				} else {
+					out = outcome{final: "OFPanic", abort: "synctest.Test panicked: " + msg}
+				}
 			}
 		}()
 		synctest.Test(t, run)
 	}()
+	s.flushLate()
+	if s.hung != "" { // watchdog (1); the error Run came back with after the world's cancellation is not its result
+		out = outcome{final: "OFHang", errS: s.hung, abort: out.abort}
+	}
+	if s.worldPanic != "" {
+		out.abort = "the simulated world panicked: " + s.worldPanic
+	}
 	return s, out
 }
+
+const horizon = 2000 * time.Hour
 
 // ------------------------------------------------------------------ generation
 
@@ -1280,6 +1564,168 @@ func genPerBatch(r *mrand.Rand, pool []*poolEntry, id int) *caseSpec {
 	return c
 }
 
+// genRange: the third input stream: the configured range [start_index, end_index) against the tree head the
+// source signs, and what the source serves beyond that head.  The head of the first pass has size S; the
+// source holds T >= S entries while the pass runs: T = S (it serves nothing beyond its head), or T > S because
+// the head comes from a lagging frontend ("lagging": the entries were there all along) or because the log
+// accepted them right after signing ("grew").  The configured end is drawn relative to both: automatic, below
+// S, S, S+1, further above S, T, above T; the start automatic, 0, below S, at / above S.  One-shot mostly (the
+// range is ignored in continuous mode, which is drawn too so that "ignored" is observed); destination empty or
+// a prefix; a few faults that do not end a pass (page caps, quota replies, transient source errors).
+func genRange(r *mrand.Rand, pool []*poolEntry, id int) *caseSpec {
+	var okPool []*poolEntry
+	for _, e := range pool {
+		if e.buildable {
+			okPool = append(okPool, e)
+		}
+	}
+	draw := func() *poolEntry { return okPool[r.Intn(len(okPool))] }
+	drawN := func(n int64) []*poolEntry {
+		var es []*poolEntry
+		for i := int64(0); i < n; i++ {
+			es = append(es, draw())
+		}
+		return es
+	}
+	c := &caseSpec{seed: r.Int63()}
+	c.ep = pick(r, "Run", "RunWhenMaster")
+	c.continuous = r.Intn(4) == 0
+	c.batch = pick(r, 1, 2, 3, 4, 4, 5, 8)
+	c.fetchers, c.submitters = 1, 1
+	if r.Intn(4) == 0 {
+		c.fetchers = pick(r, 1, 2, 4)
+		c.submitters = pick(r, 1, 2, 3)
+	}
+	c.chanSize = pick(r, 0, 0, 1, 4)
+	c.nocheck = r.Intn(12) == 0
+	c.idf = pick(r, configpb.IdentityFunction_SHA256_CERT_DATA, configpb.IdentityFunction_SHA256_LEAF_INDEX)
+	B := int64(c.batch)
+	S := 2 + r.Int63n(20)
+	beyondKinds := []string{"none", "none", "lagging", "grew"}
+	beyond := pick(r, beyondKinds...)
+	extra := int64(0)
+	if beyond != "none" {
+		extra = 1 + r.Int63n(2*B+2)
+	}
+	T := S + extra
+	ps0 := blankPass()
+	switch beyond {
+	case "none":
+		c.src0 = drawN(S)
+	case "lagging":
+		c.src0 = drawN(T)
+		ps0.sthSize = S
+	case "grew":
+		c.src0 = drawN(S)
+		ps0.lateGrow = drawN(extra)
+	}
+	endClass := pick(r, "auto", "below-sth", "at-sth", "sth+1", "above-sth", "above-sth", "at-held", "above-held")
+	switch endClass {
+	case "auto":
+		c.end = 0
+	case "below-sth":
+		c.end = 1 + r.Int63n(S-1)
+	case "at-sth":
+		c.end = S
+	case "sth+1":
+		c.end = S + 1
+	case "above-sth":
+		c.end = S + 1 + r.Int63n(2*B+1)
+	case "at-held":
+		c.end = T
+	case "above-held":
+		c.end = T + 1 + r.Int63n(B+1)
+	}
+	// destination: empty, or a prefix of the source below its head
+	d0 := int64(0)
+	c.dest0Kind = "empty"
+	if r.Intn(2) == 0 {
+		d0 = 1 + r.Int63n(S-1)
+		c.dest0Kind = "partial"
+		for i := int64(0); i < d0; i++ {
+			e := c.src0[i]
+			c.dest0 = append(c.dest0, &trillian.LogLeaf{LeafIndex: i, LeafValue: e.li, ExtraData: e.xd, LeafIdentityHash: idHashRef(c.idf, i, e)})
+		}
+		c.size0 = d0
+	}
+	startClass := pick(r, "auto", "auto", "auto", "zero", "dest-size", "below-sth", "at-sth", "above-sth")
+	switch startClass {
+	case "auto":
+		c.start = -1
+	case "zero":
+		c.start = 0
+	case "dest-size":
+		c.start = d0
+	case "below-sth":
+		c.start = r.Int63n(S)
+	case "at-sth":
+		c.start = S
+	case "above-sth":
+		c.start = S + 1 + r.Int63n(B+1)
+	}
+	c.genTags = append(c.genTags, "gen:range", "range:end-"+endClass, "range:start-"+startClass, "source:beyond-sth-"+beyond)
+	c.genInfo = map[string]interface{}{"stream": "range", "first_sth_size": S, "source_holds_during_first_pass": T,
+		"source_beyond_sth": beyond, "end_class": endClass, "start_class": startClass}
+	// faults that do not end a pass
+	decorate := func(ps *passScript, lo, held int64) {
+		if B > 1 && r.Intn(3) == 0 {
+			k := B - 1
+			if B > 2 && r.Intn(2) == 0 {
+				k = 1 + r.Int63n(B-1)
+			}
+			pageCap(ps, k, held)
+			c.genTags = append(c.genTags, "pagecap:range")
+		}
+		if held > lo && r.Intn(5) == 0 {
+			q := lo + B*r.Int63n((held-lo+B-1)/B)
+			for j, m := 0, 1+r.Intn(3); j < m; j++ {
+				ps.replies[q] = append(ps.replies[q], dreply{basic: "code", code: int(codes.ResourceExhausted)})
+			}
+		}
+		if held > lo && r.Intn(6) == 0 {
+			ps.srcerr[lo+r.Int63n(held-lo)] = 1 + r.Int63n(3)
+		}
+	}
+	lo0 := c.start
+	if lo0 < 0 || c.continuous {
+		lo0 = d0
+	}
+	decorate(ps0, lo0, T)
+	c.scripts = append(c.scripts, ps0)
+	if c.continuous {
+		cur := T
+		for p, np := 1, 1+r.Intn(3); p < np; p++ {
+			ps := blankPass()
+			g := r.Int63n(2*B + 2)
+			kind := pick(r, beyondKinds...)
+			x := int64(0)
+			if kind != "none" {
+				x = 1 + r.Int63n(B+2)
+			}
+			switch kind {
+			case "none":
+				ps.grow = drawN(g)
+			case "lagging":
+				ps.grow = drawN(g + x)
+				ps.sthSize = cur + g
+			case "grew":
+				ps.grow = drawN(g)
+				ps.lateGrow = drawN(x)
+			}
+			c.genTags = append(c.genTags, "source:beyond-sth-"+kind)
+			decorate(ps, cur, cur+g+x)
+			cur += g + x
+			c.scripts = append(c.scripts, ps)
+		}
+		if r.Intn(3) != 0 {
+			c.scripts = append(c.scripts, settlingPass(r, draw, c.batch+1))
+			c.genTags = append(c.genTags, "script:settling-pass")
+		}
+	}
+	c.scripts = append(c.scripts, terminalPass())
+	return c
+}
+
 // ------------------------------------------------------------------ Coq rendering
 
 type namer struct {
@@ -1375,7 +1821,7 @@ func coqScript(ps *passScript) string {
 		reps = append(reps, lib.Pair(lib.Z(k), lib.List(rs)))
 	}
 	return fmt.Sprintf("{| ps_grow := %s; ps_integrate := %s; ps_root := %s; ps_sth := %s; ps_cons := %s; ps_short := %s; ps_srcerr := %s; ps_replies := %s |}",
-		entryNames(ps.grow), lib.Z(ps.integrate), root, sth, cons, zmap(ps.short), zmap(ps.srcerr), lib.List(reps))
+		entryNames(append(append([]*poolEntry{}, ps.grow...), ps.lateGrow...)), lib.Z(ps.integrate), root, sth, cons, zmap(ps.short), zmap(ps.srcerr), lib.List(reps))
 }
 
 func pairs(xs [][2]int64) string {
@@ -1406,6 +1852,12 @@ func TestHarness(t *testing.T) {
 From V Require Import Base.Bytes Migrillian.MigrateModel Migrillian.MigrateCase.
 Local Open Scope Z_scope.
 `)
+	var blobs []blobT
+	for _, f := range []string{"leaf00.cert", "leaf01.cert", "int-ca.cert", "fake-ca.cert"} {
+		c := readCert(f)
+		blobs = append(blobs, blobT{fmt.Sprintf("cert%d", len(blobs)), c})
+		fmt.Fprintf(&hdr, "Definition cert%d : bytes := %s. (* %s *)\n", len(blobs)-1, lib.Hex(c), f)
+	}
 	var shaTab []string
 	seenPre := map[string]bool{}
 	addSha := func(pre []byte) {
@@ -1414,10 +1866,10 @@ Local Open Scope Z_scope.
 		}
 		seenPre[string(pre)] = true
 		h := sha256.Sum256(pre)
-		shaTab = append(shaTab, lib.Pair(lib.Hex(pre), lib.Hex(h[:])))
+		shaTab = append(shaTab, lib.Pair(coqBytes(blobs, pre), lib.Hex(h[:])))
 	}
 	for _, e := range pool {
-		fmt.Fprintf(&hdr, "Definition %s : entry := {| e_input := %s; e_extra := %s |}. (* %s *)\n", e.name, lib.Hex(e.li), lib.Hex(e.xd), e.kind)
+		fmt.Fprintf(&hdr, "Definition %s : entry := {| e_input := %s; e_extra := %s |}. (* %s *)\n", e.name, coqBytes(blobs, e.li), coqBytes(blobs, e.xd), e.kind)
 		if _, dup := nm.li[string(e.li)]; !dup {
 			nm.li[string(e.li)] = "(e_input " + e.name + ")"
 		}
@@ -1435,19 +1887,78 @@ Local Open Scope Z_scope.
 	}
 	fmt.Fprintf(&hdr, "Definition sha_tab : list (bytes * bytes) := %s.\n", lib.List(shaTab))
 	w := lib.NewWriter(hdr.String(), 40)
-	n := lib.Count(450, 7500)
+	n := lib.Count(525, 8750)
 
+	// the go-test counterpart of lib.Writer.Guard: a panic of the harness itself becomes a recorded failing
+	// case, and the cases gathered so far are still written and evaluated
+	abortCase := func(id int, spec *caseSpec, what string) lib.Case {
+		var in interface{} = map[string]interface{}{"op": "harness-abort", "case": id}
+		if spec != nil {
+			in = inputJSON(spec)
+		}
+		return lib.Case{Coq: "", Key: fmt.Sprintf("harness-abort-%d", id), Input: in, Impl: map[string]interface{}{"abort": what},
+			PropOK: false, Note: "harness aborted: " + strings.SplitN(what, "\n", 2)[0], Tags: []string{"harness-abort"}}
+	}
 	for id := 0; id < n; id++ {
 		var spec *caseSpec
-		if id%3 == 2 {
-			spec = genPerBatch(r, pool, id)
-		} else {
-			spec = genCase(r, pool, id)
-		}
-		s, out := runCase(t, spec)
-		emit(w, nm, spec, s, out)
+		func() {
+			defer func() {
+				if p := recover(); p != nil {
+					st := string(debug.Stack())
+					if len(st) > 2500 {
+						st = st[:2500]
+					}
+					w.Add(abortCase(id, spec, fmt.Sprintf("case %d: %v\n%s", id, p, st)))
+				}
+			}()
+			switch id % 7 {
+			case 2, 5:
+				spec = genPerBatch(r, pool, id)
+			case 6:
+				spec = genRange(r, pool, id)
+			default:
+				spec = genCase(r, pool, id)
+			}
+			// watchdog (3), in wall-clock time and outside the bubble: a spin that never calls the simulated
+			// world cannot be ended from inside the process; record the case, write what there is, leave
+			wd := time.AfterFunc(wallLimit, func() {
+				c := abortCase(id, spec, "")
+				c.Key, c.Tags = fmt.Sprintf("wall-clock-hang-%d", id), []string{"final:OFHang(wall-clock)"}
+				c.Impl = map[string]interface{}{"final": "OFHang", "error": fmt.Sprintf("no result after %s of wall-clock time", wallLimit)}
+				c.Note = fmt.Sprintf("run: OFHang %s did not return within %s of wall-clock time and the simulated world is not being called (a loop that neither pauses nor makes a request)", spec.ep, wallLimit)
+				w.Add(c)
+				w.Close()
+				os.Exit(0)
+			})
+			s, out := runCase(t, spec)
+			wd.Stop()
+			if out.abort != "" {
+				w.Add(abortCase(id, spec, fmt.Sprintf("case %d: %s", id, out.abort)))
+				return
+			}
+			emit(w, nm, spec, s, out)
+		}()
 	}
 	w.Close()
+}
+
+// wall-clock limit per case (a case takes milliseconds); VERIF_C20_WALL=<seconds> overrides it (self-tests)
+var wallLimit = func() time.Duration {
+	if v, err := strconv.Atoi(os.Getenv("VERIF_C20_WALL")); err == nil && v > 0 {
+		return time.Duration(v) * time.Second
+	}
+	return 90 * time.Second
+}()
+
+func inputJSON(spec *caseSpec) map[string]interface{} {
+	in := map[string]interface{}{"entry_point": spec.ep, "continuous": spec.continuous, "batch": spec.batch, "fetchers": spec.fetchers,
+		"submitters": spec.submitters, "channel": spec.chanSize, "start_index": spec.start, "end_index": spec.end,
+		"no_consistency_check": spec.nocheck, "identity": spec.idf.String(), "source_size0": len(spec.src0),
+		"dest0": spec.dest0Kind, "dest_size0": spec.size0, "scripted_passes": len(spec.scripts)}
+	for k, v := range spec.genInfo {
+		in[k] = v
+	}
+	return in
 }
 
 func emit(w *lib.Writer, nm *namer, spec *caseSpec, s *sim, out outcome) {
@@ -1513,12 +2024,64 @@ func emit(w *lib.Writer, nm *namer, spec *caseSpec, s *sim, out outcome) {
 		}
 		return s.src[i]
 	}
+	// what kind of entry the source holds at an index (which of its certificates parse): part of the
+	// history of a gap, since "entries whose certificates do not parse are still copied verbatim"
+	kindAt := func(i int64) string {
+		if e := srcAt(i); e != nil {
+			return fmt.Sprintf(" (source entry %d is of kind %s)", i, e.kind)
+		}
+		return ""
+	}
+	firstNotStored := func(lo, hi int64) string {
+		for i := lo; i < hi; i++ {
+			if s.dest[i] == nil {
+				return fmt.Sprintf("; first index not stored: %d%s", i, kindAt(i))
+			}
+		}
+		return ""
+	}
+	for _, e := range s.src {
+		ks := strings.Split(e.kind, ":")
+		if len(ks) >= 2 {
+			tag("entry:" + ks[0] + ":" + ks[1])
+		}
+		if len(ks) >= 4 && ks[1] == "chain-unparsable" {
+			tag("entry-chain-position:" + ks[2])
+			tag("entry-defect:" + ks[3])
+		} else if len(ks) >= 3 && ks[1] != "chain-unparsable" {
+			tag("entry-defect:" + ks[len(ks)-1])
+		}
+	}
 	mirrors := func(l *trillian.LogLeaf) bool {
 		e := srcAt(l.LeafIndex)
 		return e != nil && e.buildable && bytes.Equal(l.LeafValue, e.li) && bytes.Equal(l.ExtraData, e.xd) &&
 			bytes.Equal(l.LeafIdentityHash, idHashRef(spec.idf, l.LeafIndex, e))
 	}
 	dest0Mirrors := spec.dest0Kind != "diverged"
+	// the concrete history of a pass, for the notes about tree heads
+	cfgS := fmt.Sprintf("%s, continuous=%v, configured range [%d,%d), batch %d", spec.ep, spec.continuous, spec.start, spec.end, spec.batch)
+	triples := func(xs [][3]int64, f string) string {
+		var out []string
+		for _, x := range xs {
+			out = append(out, fmt.Sprintf(f, x[0], x[1], x[2]))
+		}
+		return strings.Join(out, ", ")
+	}
+	history := func(pi int) string {
+		if pi < 0 || pi >= len(s.passes) {
+			return cfgS
+		}
+		p := s.passes[pi]
+		h := fmt.Sprintf("%s; pass %d: destination tree size %d, source STH size %d while the source held %d entries at get-sth and %d in the end",
+			cfgS, pi, p.ts, p.sthSize, p.srcLenSth, len(s.src))
+		if len(p.beyondSth) > 0 {
+			h += "; served past its STH: " + triples(p.beyondSth, "get-entries [%d,%d] -> %d entries")
+		}
+		if len(p.refused) > 0 {
+			h += "; refused (nothing there): " + triples(p.refused, "get-entries [%d,%d] x%d")
+		}
+		return h
+	}
 	var anyAbort bool
 	for pi, p := range s.passes {
 		lastReply := map[int64]*obsReq{}
@@ -1534,7 +2097,7 @@ func emit(w *lib.Writer, nm *namer, spec *caseSpec, s *sim, out outcome) {
 					fail("mirror: leaf submitted under index %d is not the source entry of that index (pass %d)", l.LeafIndex, pi)
 				}
 				if l.LeafIndex >= q.sthSize {
-					fail("beyond: index %d submitted, the STH of the pass has size %d (pass %d)", l.LeafIndex, q.sthSize, pi)
+					fail("beyond: index %d submitted, the STH of the pass has size %d (pass %d) [%s]", l.LeafIndex, q.sthSize, pi, history(pi))
 				}
 			}
 			if len(q.leaves) == 0 {
@@ -1564,9 +2127,20 @@ func emit(w *lib.Writer, nm *namer, spec *caseSpec, s *sim, out outcome) {
 			anyAbort = true
 		}
 	}
+	var addedIdx []int64
 	for i := range s.added {
+		addedIdx = append(addedIdx, i)
+	}
+	sort.Slice(addedIdx, func(i, j int) bool { return addedIdx[i] < addedIdx[j] })
+	for _, i := range addedIdx {
 		if !mirrors(s.dest[i]) {
 			fail("mirror: destination index %d does not hold the source entry", i)
+		}
+		// "nothing beyond the source tree size it verified", on the destination itself: the tree head the
+		// migrator had fetched (and, past a non-empty root, proved consistent) when the index was stored covers it
+		if under := s.addedUnder[i]; i >= under {
+			fail("beyond: destination holds index %d, stored in pass %d under a source STH of size %d: no tree head the migrator verified covers it [%s]",
+				i, s.addedPass[i], under, history(s.addedPass[i]))
 		}
 	}
 	if dest0Mirrors && s.conflicts > 0 {
@@ -1601,12 +2175,12 @@ func emit(w *lib.Writer, nm *namer, spec *caseSpec, s *sim, out outcome) {
 				hi = p.sthSize
 			}
 			if out.final != "OFNil" {
-				fail("complete: one-shot run without any fault returned an error: %s", out.errS)
+				fail("complete: one-shot run without any fault returned an error: %s%s", out.errS, firstNotStored(lo, hi))
 			}
 		}
 		for i := lo; i < hi; i++ {
 			if s.dest[i] == nil {
-				fail("gap: index %d missing after a run in which no pass was aborted (range [%d,%d))", i, lo, hi)
+				fail("gap: index %d missing after a run in which no pass was aborted (range [%d,%d))%s", i, lo, hi, kindAt(i))
 				break
 			}
 		}
@@ -1649,14 +2223,23 @@ func emit(w *lib.Writer, nm *namer, spec *caseSpec, s *sim, out outcome) {
 					hi = p.sthSize
 				}
 				if m := firstMissing(atEnd, lo, hi); m >= 0 {
-					fail("gap: Run returned nil (pass %d, destination size %d, STH size %d), index %d of its range [%d,%d) is not stored%s", np-1, p.ts, p.sthSize, m, lo, hi, because(p))
+					fail("gap: Run returned nil (pass %d, destination size %d, STH size %d), index %d of its range [%d,%d) is not stored%s%s", np-1, p.ts, p.sthSize, m, lo, hi, because(p), kindAt(m))
 				}
 			}
 			if len(p.fatalLive) > 0 {
 				fail("fatal: %s while the caller's context was live, and Run returned nil (pass %d)", p.fatalLive[0], np-1)
 			}
 		} else if out.final == "OFErr" && undisturbed(p) {
-			fail("complete: pass %d of a one-shot run met no fault (quota replies and source errors at most), Run returned an error: %s", np-1, out.errS)
+			fail("complete: pass %d of a one-shot run met no fault (quota replies and source errors at most), Run returned an error: %s%s", np-1, out.errS, func() string {
+				lo, hi := spec.start, spec.end
+				if lo < 0 {
+					lo = p.ts
+				}
+				if hi == 0 || hi > p.sthSize {
+					hi = p.sthSize
+				}
+				return firstNotStored(lo, hi)
+			}())
 		}
 	}
 	if spec.continuous {
@@ -1703,7 +2286,7 @@ func emit(w *lib.Writer, nm *namer, spec *caseSpec, s *sim, out outcome) {
 					// nothing disturbed the pass and the controller went on: everything below its STH is stored
 					tag("claim:went-on-after-undisturbed-pass")
 					if m := firstMissing(func(i int64) bool { return next.stored0[i] }, 0, p.sthSize); m >= 0 {
-						fail("gap: pass %d met no fault (destination size %d, STH size %d) and the controller went on, index %d is not stored", pi, p.ts, p.sthSize, m)
+						fail("gap: pass %d met no fault (destination size %d, STH size %d) and the controller went on, index %d is not stored%s", pi, p.ts, p.sthSize, m, kindAt(m))
 					}
 				}
 				if len(p.fatalLive) > 0 && spec.ep == "Run" {
@@ -1717,7 +2300,34 @@ func emit(w *lib.Writer, nm *namer, spec *caseSpec, s *sim, out outcome) {
 			tag("fired:fatal-with-live-context")
 		}
 	}
-	if out.final == "OFPanic" || out.final == "OFHang" {
+	for _, p := range s.passes {
+		if len(p.beyondSth) > 0 {
+			tag("source:served-beyond-sth")
+		}
+		if len(p.refused) > 0 {
+			tag("source:asked-beyond-what-it-holds")
+		}
+	}
+	if np := len(s.passes); np > 0 && !spec.continuous && s.passes[0].sthSize >= 0 {
+		switch n := s.passes[0].sthSize; {
+		case spec.end == 0:
+		case spec.end < n:
+			tag("cfg:end-below-sth")
+		case spec.end == n:
+			tag("cfg:end-at-sth")
+		default:
+			tag("cfg:end-above-sth")
+			if spec.end > int64(len(s.src)) {
+				tag("cfg:end-above-what-the-source-holds")
+			}
+		}
+	}
+	if out.final == "OFHang" {
+		// termination is part of every clause that says what a run leaves behind: a Run that never returns
+		// (one-shot) or stops making passes (continuous) migrates nothing further and reports nothing
+		fail("run: OFHang %s never came back: %s [%s]", spec.ep, out.errS, history(len(s.passes)-1))
+	}
+	if out.final == "OFPanic" {
 		fail("run: %s %s", out.final, out.errS)
 	}
 
@@ -1727,6 +2337,9 @@ func emit(w *lib.Writer, nm *namer, spec *caseSpec, s *sim, out outcome) {
 	for pi, p := range obsPasses {
 		stream := append([]*obsReq{}, p.stream...)
 		get := append([][2]int64{}, p.get...)
+		if out.final == "OFHang" && len(get) > 200 {
+			get = get[:200] // the case fails on its outcome; the rest of a retry loop is not worth printing
+		}
 		if mode == "MLoose" && pi == len(obsPasses)-1 {
 			// the pass a fault cut short under a concurrent schedule: what was submitted before the
 			// cut is not determined by the input, so it is not part of the case (the direct oracle
@@ -1827,7 +2440,17 @@ func emit(w *lib.Writer, nm *namer, spec *caseSpec, s *sim, out outcome) {
 			tag("fired:malformed-entry")
 		}
 		passes = append(passes, fmt.Sprintf("{| op_sth := %s; op_cons := %s; op_get := %s; op_stream := %s |}", lib.Bool(p.sth), cons, pairs(get), lib.List(reqs)))
-		passesJ = append(passesJ, map[string]interface{}{"dest_size": p.ts, "sth_size": p.sthSize, "consistency": p.cons, "get_entries": len(get), "add_sequenced_leaves": reqsJ})
+		pj := map[string]interface{}{"dest_size": p.ts, "sth_size": p.sthSize, "consistency": p.cons, "get_entries": len(get), "add_sequenced_leaves": reqsJ}
+		if p.srcLenSth >= 0 && p.srcLenSth != p.sthSize {
+			pj["source_held_at_get_sth"] = p.srcLenSth
+		}
+		if len(p.beyondSth) > 0 {
+			pj["served_past_sth"] = triples(p.beyondSth, "get-entries [%d,%d] -> %d entries")
+		}
+		if len(p.refused) > 0 {
+			pj["refused"] = triples(p.refused, "get-entries [%d,%d] x%d")
+		}
+		passesJ = append(passesJ, pj)
 	}
 	for _, ps := range spec.scripts {
 		if len(ps.short) > 0 {
@@ -1885,10 +2508,7 @@ func emit(w *lib.Writer, nm *namer, spec *caseSpec, s *sim, out outcome) {
 	}
 	w.Add(lib.Case{
 		Coq: coq,
-		Input: map[string]interface{}{"entry_point": spec.ep, "continuous": spec.continuous, "batch": spec.batch, "fetchers": spec.fetchers,
-			"submitters": spec.submitters, "channel": spec.chanSize, "start_index": spec.start, "end_index": spec.end,
-			"no_consistency_check": spec.nocheck, "identity": spec.idf.String(), "source_size0": len(spec.src0),
-			"dest0": spec.dest0Kind, "dest_size0": spec.size0, "scripted_passes": len(spec.scripts)},
+		Input:  inputJSON(spec),
 		Impl:   impl,
 		PropOK: propOK, Note: note, Tags: tags,
 	})
